@@ -277,7 +277,11 @@ def removePlaceholders : J → J
 /-! ### `validate_names` -/
 def reserved : List String := ["none", "null", "nan"]
 
-def isReserved (s : String) : Bool := reserved.contains s.toLower
+/-- `str.lower()` on ASCII letters (no other character lower-cases to an ASCII letter of the
+reserved names) -/
+def lowerAscii (s : String) : String := String.ofList (s.toList.map Char.toLower)
+
+def isReserved (s : String) : Bool := reserved.contains (lowerAscii s)
 
 def labelsOk : List J → Except Rej Unit
   | [] => .ok ()
@@ -518,21 +522,25 @@ def installLabels (pool : KV) : List J → KV → Except Rej KV
       | none => .error .missing_method
     | none => .error .missing_method
 
+/-- the defaults file of a method: its own `default_parameters` key, else by deployment type -/
+def methodDefFile (mk : KV) : Except Rej J :=
+  match mk.lookup "default_parameters" with
+  | some v => .ok v
+  | none =>
+    match mk.lookup "deployment_type" with
+    | none => .error .key_error
+    | some dt =>
+      if dt.isStr "mobile" then .ok (.str mobileDefFile)
+      else if dt.isStr "stationary" then .ok (.str stationaryDefFile)
+      else .error .exit
+
+def methodOmit : List String := ["default_parameters", "quantification_parameters"]
+
 /-- second loop for one method: choose its defaults file, type check, merge -/
 def installMethod (defs : KV) (method : J) : Except Rej J :=
   match method with
   | .obj mk =>
-    let dfE : Except Rej J :=
-      match mk.lookup "default_parameters" with
-      | some v => .ok v
-      | none =>
-        match mk.lookup "deployment_type" with
-        | none => .error .key_error
-        | some dt =>
-          if dt.isStr "mobile" then .ok (.str mobileDefFile)
-          else if dt.isStr "stationary" then .ok (.str stationaryDefFile)
-          else .error .exit
-    match dfE with
+    match methodDefFile mk with
     | .error e => .error e
     | .ok df =>
       match loadDef defs df with
@@ -541,7 +549,7 @@ def installMethod (defs : KV) (method : J) : Except Rej J :=
         match mk.lookup "method_name" with
         | none => .error .key_error
         | some _ =>
-          match checkTypes ["default_parameters", "quantification_parameters"] d method with
+          match checkTypes methodOmit d method with
           | .error e => .error e
           | .ok _ => retainUpdate d method
   | _ => .error .type_error
